@@ -160,10 +160,14 @@ pub fn run_full<T: Model + BorshSerialize + BorshDeserialize>(op: &str, args: &[
     ser_ops::<T>(op, args)
         .or_else(|| de_ops::<T>(op, args))
         .or_else(|| rt_ops::<T>(op, args))
+        .or_else(|| crate::ops_io::io_ser_ops::<T>(op, args))
+        .or_else(|| crate::ops_io::io_de_ops::<T>(op, args))
         .unwrap_or_else(|| format!("harness-error unknown op {}", op))
 }
 pub fn run_ser<T: Model + BorshSerialize>(op: &str, args: &[&str]) -> String {
-    ser_ops::<T>(op, args).unwrap_or_else(|| "skip ser-only".to_string())
+    ser_ops::<T>(op, args)
+        .or_else(|| crate::ops_io::io_ser_ops::<T>(op, args))
+        .unwrap_or_else(|| "skip ser-only".to_string())
 }
 
 pub fn full<T: Model + BorshSerialize + BorshDeserialize>(id: u32, rust: &'static str) -> Entry {
